@@ -646,6 +646,22 @@ pub fn sugg_corpus() -> Vec<Program> {
         fl.flatten = true;
         out.push(Program { decls: vec![st(vec![opt("first"), opt("last_name"), fl]), st(vec![opt("lorem"), opt("example"), sk])], root: 0, family: "sugg flatten1".into() });
     }
+    // P2b/P2c: the flatten member's siblings are renamed (explicitly / by the container's case
+    // rule): the names lent to the flatten member are the attribute names, not the identifiers
+    {
+        let mut ren = opt("last_name");
+        ren.rename = Some("surname".into());
+        let mut fl = Field::new("inner", Ty::Struct(1));
+        fl.flatten = true;
+        out.push(Program { decls: vec![st(vec![opt("first"), ren, fl]), st(vec![opt("lorem"), opt("example")])], root: 0, family: "sugg flatten1 renamed-sibling".into() });
+        let mut fl = Field::new("inner", Ty::Struct(1));
+        fl.flatten = true;
+        let mut root = StructDecl::new(Trait::FromMeta, vec![opt("max_size"), opt("min_size_x"), fl]);
+        root.rule = Rule::Camel;
+        let mut child = StructDecl::new(Trait::FromMeta, vec![opt("lorem_ipsum"), opt("example")]);
+        child.rule = Rule::Screaming;
+        out.push(Program { decls: vec![Decl::Struct(root), Decl::Struct(child)], root: 0, family: "sugg flatten1 rename_all".into() });
+    }
     // P3: flatten depth 2 with overlapping names
     {
         let mut fb = Field::new("b", Ty::Struct(2));
